@@ -9,6 +9,18 @@ CHECKS = {
     design="5/C13",
     note="Trusted: Lean kernel + axioms propext/Classical.choice/Quot.sound; the model=implementation correspondence is sampled (generated histories), not proved; Obs is read off the generated YAML by the harness.",
     technique="Lean 4 invariant proof by induction over the history (state-machine model) + differential correspondence against Fusion.add_einsum"),
+ "C06": dict(
+    category="proof",
+    text="Lean theorem C06.DA_sound/closed: a program accepted by the definite-assignment analysis DA from the user-supplied names reads no unbound name on ANY execution path (any iteration counts, any branches), and uses loop variables only inside their loop. DA is evaluated in Lean on the statement tree the real compiler built (after Lean's printer reproduced the emitted text exactly) for corpus + generated specifications in all three modes under several hash seeds; CPython's parser must accept the text.",
+    design="5/C06",
+    note="Trusted: Lean kernel; Python's binding rules as modelled by HF.Run; userNames(spec) computed by the harness; the quantifier over specifications is sampled by generators (validator soundness is unbounded in paths, not in programs). Known finding: coord-style stamp on a flattened rank reads an unbound name.",
+    technique="Lean 4 proof of validator soundness (definite assignment vs nondeterministic trace semantics) + evaluation of the validator on the real compiler's trees"),
+ "C10": dict(
+    category="proof",
+    text="Lean theorems C10.hoistAll_topo / hoistAll_perm / hoistOne_moved_legal / before_of_edge: for every dependence graph, every topological order (all tie-breaks) and every loop order, hoisting keeps the sequence a topological order, drops/duplicates nothing, moves a statement above a loop only if it is not a descendant, and leaves only descendants inside. The model hoistAll is compared with the real FlowGraph.__hoist on exported flow graphs (plain + metrics) and on random DAGs; hypotheses (Topo, Closed) and conclusions are re-evaluated in Lean on the implementation's data; def-use dependences of the emitted text are checked with C06's DA.",
+    design="5/C10",
+    note="Trusted: Lean kernel; networkx contracts re-checked per sample; model = implementation is sampled; completeness of the graph's edges w.r.t. the emitted statements is decided through DA on sampled programs.",
+    technique="Lean 4 proof over an abstract insertion-ordered digraph model of __hoist + differential correspondence on exported flow graphs and random DAGs"),
 }
 
 NOT_YET = {}
